@@ -7,12 +7,15 @@
 package main
 
 import (
+	"encoding/json"
 	"fmt"
 	"os"
+	"path/filepath"
 	"sync"
 	"time"
 
 	"verifh/adapters"
+	"verifh/cluster"
 	"verifh/common"
 	"verifh/linz"
 )
@@ -27,6 +30,14 @@ func toOps(h []adapters.HistOp) []linz.Op {
 
 func main() {
 	r := common.Start("C14", "exploration")
+	if common.ChildRole() == "tcp" {
+		var cfg cluster.PbkvsRun
+		if err := json.Unmarshal([]byte(os.Getenv("C14_CFG")), &cfg); err != nil {
+			panic(err)
+		}
+		cluster.PbkvsChild(cfg, os.Getenv("C14_OUT"))
+		return
+	}
 	scratch := common.Scratch("c14")
 	defer os.RemoveAll(scratch)
 	var mu sync.Mutex
@@ -132,6 +143,70 @@ func main() {
 			r.Inconclusive(fmt.Sprintf("tlc %s: %s", v.Kind, tail(v.Detail, 300)))
 		}
 	})
+	// second setting: the shipped bootstrap over TCP mailboxes, failure-free (LeaderElection stub), concurrent
+	// clients with unique values: linearizable history and equal replica stores at quiescence
+	tcpN := r.Pick(1, 20)
+	tcpRuns, tcpOps := 0, 0
+	for i := 0; i < tcpN; i++ {
+		rng := r.Rand(fmt.Sprintf("c14-tcp-%d", i))
+		cfg := cluster.PbkvsRun{NR: 1 + (i+2)%3, NC: 1 + rng.Intn(3), Seed: r.Seed*100 + int64(i), OpsPerClient: 10 + rng.Intn(10), Keys: 1 + rng.Intn(2), PutPct: 60, Scale: 3, MaxWall: 60 * time.Second}
+		out := filepath.Join(scratch, fmt.Sprintf("tcp-%d.jsonl", i))
+		buf, _ := json.Marshal(cfg)
+		res := common.RunChild("", "tcp", scratch, []string{"C14_CFG=" + string(buf), "C14_OUT=" + out}, cfg.MaxWall+60*time.Second)
+		recs, complete, _ := common.ReadJSONL(out)
+		if !complete || res.TimedOut {
+			r.Inconclusive(fmt.Sprintf("tcp run %d incomplete: timedout=%v exit=%d %s", i, res.TimedOut, res.ExitCode, tail(res.Output, 300)))
+			continue
+		}
+		var h []linz.Op
+		var finalFS map[string]any
+		done := 0
+		for _, rec := range recs {
+			switch rec["kind"] {
+			case "op":
+				op := linz.Op{Client: int(rec["client"].(float64)), Put: rec["put"].(bool), Key: rec["key"].(string), Val: rec["val"].(string), Found: rec["found"].(bool),
+					Call: int64(rec["call"].(float64)), Ret: int64(rec["ret"].(float64)), Sends: 1}
+				h = append(h, op)
+				if op.Ret >= 0 {
+					done++
+				}
+			case "stats":
+				finalFS, _ = rec["final_fs"].(map[string]any)
+			}
+		}
+		if done == 0 {
+			r.Inconclusive(fmt.Sprintf("tcp run %d completed no operation", i))
+			continue
+		}
+		tcpRuns++
+		tcpOps += done
+		evals++
+		wit := map[string]any{"setting": "tcp", "cfg": cfg, "history": h, "final_fs": finalFS}
+		switch linz.Check(h, 60*time.Second) {
+		case linz.Illegal:
+			r.Report("C14:tcp:not-linearizable", fmt.Sprintf("failure-free TCP run %d (%d replicas, %d clients): history of %d operations is not linearizable", i, cfg.NR, cfg.NC, len(h)), wit)
+		case linz.Unknown:
+			r.Inconclusive("porcupine timeout on a tcp history")
+		}
+		// quiescent agreement: every replica that recorded writes holds the same store (all operations were acknowledged)
+		if done == len(h) {
+			var ref string
+			for rep, m := range finalFS {
+				cur := fmt.Sprint(m)
+				if ref == "" {
+					ref = cur
+				} else if cur != ref {
+					r.Report("C14:tcp:replicas-differ-at-quiescence", fmt.Sprintf("failure-free TCP run %d: replica %s holds %s, another holds %s after every operation was acknowledged", i, rep, cur, ref), wit)
+				}
+			}
+			if len(finalFS) != cfg.NR && anyPut(h) {
+				r.Report("C14:tcp:replica-without-writes", fmt.Sprintf("failure-free TCP run %d: only %d of %d replicas recorded writes although Puts were acknowledged", i, len(finalFS), cfg.NR), wit)
+			}
+		}
+		if cfg.NR >= 2 && done >= 3 {
+			distinct.Add(fmt.Sprintf("tcp-%d-%d-%d", i, cfg.NR, done))
+		}
+	}
 	r.Finish(common.Coverage{
 		Evaluations:        evals + tlcN,
 		DistinctNontrivial: distinct.Len(),
@@ -140,11 +215,20 @@ func main() {
 		Floor:              10,
 		Extra: map[string]any{"sim_runs": runs, "committed_steps": steps, "aborted_attempts": aborts, "replica_crashes": crashes, "states_with_primary_about_to_answer": answers,
 			"operations_recorded": opsAll, "operations_completed": opsDone, "operations_retransmitted": retrans, "labels_committed": labels,
-			"tlc_traces_validated": tlcOK, "tlc_traces_submitted": tlcN, "tlc_states_validated": tlcStates},
+			"tcp_runs": tcpRuns, "tcp_operations_completed": tcpOps, "tlc_traces_validated": tlcOK, "tlc_traces_submitted": tlcN, "tlc_states_validated": tlcStates},
 	}, []string{
 		"perfect failure detector and LeaderElection = smallest live replica, as in the spec's instantiation; the shipped Go LeaderElection resource is a stub that always answers 1, so fail-over cannot be exercised over TCP and is covered in simulation only",
 		"crash oracle: a mayFail branch fires with a seeded probability, never for the last live replica",
 	})
+}
+
+func anyPut(h []linz.Op) bool {
+	for _, o := range h {
+		if o.Put {
+			return true
+		}
+	}
+	return false
 }
 
 func tail(s string, n int) string {
